@@ -85,6 +85,8 @@ def cex_to_text(cex):
         lines.append("moves %s" % cex["moves"])
     if cex.get("reuse"):
         lines.append("reuse 1")
+    if "modes" in cex:
+        lines.append("modes " + " ".join(cex["modes"]))
     if "fault" in cex:
         lines.append("fault %d %s" % (cex["fault"][0], cex["fault"][1]))
     if "block_size" in cex:
@@ -265,6 +267,25 @@ def family_faults(seed):
     return [{"oracle": "faults", "db": ops, "reuse": reuse} for reuse, ops in fam]
 
 
+def family_crash(seed):
+    """C02 / C16 bounded stand-in: the histories of family_faults plus records that span several
+    32 KiB log blocks; every counted file-system call is the crash point: it and all later calls
+    fail, and if it is a write it leaves nothing / 1 byte / half / all but one byte of its buffer
+    behind (a torn write).  Then the 'process restarts': the fault is cleared, the database is
+    reopened, read, written once more and reopened again."""
+    a = lambda s: s.encode().hex() if s else "-"
+    P = lambda k, v: ["put", a(k), a(v)]
+    F, C = ["flush"], ["compact"]
+    R = lambda mode: ["reopen", mode]
+    big = "x" * 70000
+    fam = [dict(c) for c in family_faults(seed)]
+    fam.append({"oracle": "faults", "db": [P("a", "1"), P("b", big), P("c", "1"), R("x"), P("d", big[:40000]), P("a", "2")], "reuse": True})
+    fam.append({"oracle": "faults", "db": [P("a", big), F, P("b", "1"), R("x"), P("c", "1"), C, P("d", "1")], "reuse": bool(seed % 2)})
+    for c in fam:
+        c["modes"] = ["sticky", "torn1", "torn", "tornm1"]
+    return fam
+
+
 def family_batch_codec(seed):
     """Serialized write batches (the payload of a WAL record): well formed, cut at and inside element
     boundaries, with a count that disagrees with the elements present, with bad operation bytes."""
@@ -335,6 +356,9 @@ def family_bloom(seed):
 
 FAMILIES = [
     ("U46::", family_faults),
+    ("U47::", family_crash),
+    ("U05::implLogReader::read_physical_record::eof-inside-a-fragment-is-remembered", family_crash),
+    ("U05::implLogReader::read_record::torn-tail-is-remembered", family_crash),
     ("U35::", family_batch_codec),
     ("U06::", family_bloom),
     ("U19::write_snapshot_record_file", family_db_snapshot),
@@ -384,6 +408,7 @@ def _search_family(fam, repo):
 
 
 BOUNDS = {
+    "family_crash": "7 whole-database histories (the 5 of family_faults plus 2 with values of 40000 and 70000 bytes, i.e. log records spanning 2-3 blocks of 32 KiB), each re-run once per counted file-system call and per crash mode (the call and everything after it fails; a failing write leaves 0 bytes, 1 byte, half or all but the last byte of its buffer); after the crash point the fault is cleared and the database is reopened, read, written once more and reopened again; in-process state that survives the simulated crash is not reset (only the file system decides what the restarted database sees)",
     "family_faults": "5 whole-database histories (3 hand-written, 2 pseudo-random per seed; at most 14 operations over 5 keys, with flushes, manual compactions and reopens, reuse_log_files on and off), each re-run once per counted file-system call (about 60 to 170 per history) with that call failing once and with that call and all later ones failing; only wrong results are judged - a panic or a hang of a faulted run is counted as not judged",
     "family_db_views": "whole-database histories of at most 85 operations over 7 keys (8 hand-written + 10 pseudo-random per seed); every live snapshot and the latest state read back through get, both scan directions, seek to every key, a zig-zag walk and 5 cursor scripts per key",
     "family_log_reader": "write-ahead-log byte streams built from the hand-written and seeded append / reopen / truncate / flip scripts of tools/replay.py (records up to 3 blocks)",
